@@ -4,6 +4,7 @@ import RsyncModel.Driver.AclOps
 import RsyncModel.Driver.DeltaOps
 import RsyncModel.Driver.GenOps
 import RsyncModel.Driver.DeleteOps
+import RsyncModel.Driver.FlistOps
 open Driver
 
 def dispatch (line : String) : String :=
@@ -14,6 +15,7 @@ def dispatch (line : String) : String :=
   | op :: _ =>
     if op.startsWith "mux." then muxOp fs
     else if op == "acl" then aclOp fs
+    else if op == "clean" || op.startsWith "flist." then flistOp fs
     else if op == "delete" || op == "find" || op == "utf8" then deleteOp fs
     else if op == "gen" || op == "genrecv" then genOp fs
     else if ["sum1", "md4", "sumsizes", "gensums", "search", "recvdata"].contains op then deltaOp fs
